@@ -92,14 +92,21 @@ def famInsert (f : Family) : List Family → List Family
     else if strLt f.name g.name then f :: g :: r
     else g :: famInsert f r
 
-/-- the sample comparator of `gather`, as "a sorts no later than b" -/
+/-- first position at which the label VALUES of two samples differ (the `for (lp1, lp2) in zip` loop) -/
+def firstDiff : List LabelPair → List LabelPair → Option (Str × Str)
+  | x :: xs, y :: ys => if x.value != y.value then some (x.value, y.value) else firstDiff xs ys
+  | _, _ => none
+
+/-- the sample comparator of `gather`, as "a sorts no later than b": number of labels, then the
+    label values position-wise, then the timestamp -/
+def cmpTail (fd : Option (Str × Str)) (p : Bool) : Bool :=
+  match fd with
+  | some (x, y) => strLe x y
+  | none => p
+
 def sampleLe (a b : Sample) : Bool :=
   if a.labels.length != b.labels.length then a.labels.length ≤ b.labels.length
-  else
-    let rec go : List LabelPair → List LabelPair → Bool
-      | x :: xs, y :: ys => if x.value != y.value then strLe x.value y.value else go xs ys
-      | _, _ => decide (a.ts ≤ b.ts)
-    go a.labels b.labels
+  else cmpTail (firstDiff a.labels b.labels) (decide (a.ts ≤ b.ts))
 
 def applyPrefix (pref : Option Str) (name : Str) : Str :=
   match pref with
